@@ -68,6 +68,22 @@ def run(ctx):
 
 def verify(cfg, crate, body, I, rep, key):
     isv = lambda c: c.endswith("X509CertificationRequest::verify_signature")
+    # the parser may hand the whole job to a helper introduced later (`import::parse(..)`): the dominance argument is then
+    # made in the function that actually verifies and constructs
+    from interp import known_fns
+    for _ in range(3):
+        if common.mir_calls(body, isv):
+            break
+        nxt = None
+        for i_, b_ in common.mir_blocks(body).items():
+            t_ = b_["term"]
+            if t_["k"] == "Call":
+                c_ = common.facts_norm(t_.get("inst") or t_.get("callee") or "")
+                if c_ in crate.bodies and c_ not in known_fns(crate.name) and "mir" in crate.bodies[c_] and common.mir_calls_deep(crate, crate.bodies[c_], isv):
+                    nxt = crate.bodies[c_]
+        if nxt is None:
+            break
+        body = nxt
     vs = common.mir_calls(body, isv)
     rep.ob("C06.verify", key + "|call", len(vs) == 1, "verify_signature is called exactly once", found=len(vs))
     if len(vs) != 1:
@@ -77,6 +93,22 @@ def verify(cfg, crate, body, I, rep, key):
     blocks = common.mir_blocks(body)
     # success construction: the aggregate of the accepted result
     succ = [i for i, b in blocks.items() if any("CertificateSigningRequestParams {" in s["s"] or "csr::CertificateSigningRequestParams {" in s["s"] for s in b["stmts"])]
+    def _builds(bd, depth=0):
+        for i2, b2 in common.mir_blocks(bd).items():
+            if any("CertificateSigningRequestParams {" in s2["s"] for s2 in b2["stmts"]):
+                return True
+            t2 = b2["term"]
+            if t2["k"] == "Call" and depth < 2:
+                c2 = common.facts_norm(t2.get("inst") or t2.get("callee") or "")
+                if c2 in crate.bodies and c2 not in known_fns(crate.name) and "mir" in crate.bodies[c2] and _builds(crate.bodies[c2], depth + 1):
+                    return True
+        return False
+    for i_, b_ in blocks.items():
+        t_ = b_["term"]
+        if t_["k"] == "Call" and i_ not in succ:
+            c_ = common.facts_norm(t_.get("inst") or t_.get("callee") or "")
+            if c_ in crate.bodies and c_ not in known_fns(crate.name) and "mir" in crate.bodies[c_] and _builds(crate.bodies[c_]):
+                succ.append(i_)        # the accepted result is assembled by a helper called here
     rep.ob("C06.verify", key + "|success-site", len(succ) >= 1, "the accepted result is constructed in this function", found=len(succ))
     for sb in succ:
         rep.ob("C06.verify", key + "|dominates-success", vb in dom[sb], "signature verification dominates the construction of the accepted result (no path accepts without verifying)", found="bb%d !dom bb%d" % (vb, sb), sp=vs[0][1].get("sp"))
@@ -260,7 +292,7 @@ def constructors(cfg, crate, rep):
                 continue
             for n in common.hir_walk(b["hir"]):
                 if n["k"] == "Struct" and (n.get("adt") or "") == adt:
-                    sites.add(name)
+                    sites.update(common.known_owners(crate, name.split("::{closure")[0]))     # a helper of the parser acts on its behalf
         rep.ob("C06.verify", "%s|constructors|%s" % (cfg, adt), sites == allowed, "the type is constructed only by the verifying parser", expected=sorted(allowed), found=sorted(sites))
     a = crate.adts.get("csr::PublicKey")
     if a:
